@@ -304,4 +304,65 @@ def run (parse : Bytes → Option Uuid) (s : PState) : List Op → PState
   | [] => s
   | op :: rest => run parse (step parse s op).1 rest
 
+/-! ### sessions: who a connection is
+
+  `handle_pairings` looks at `handler.is_encrypted` / `handler.client_uuid`.  Those two fields are
+  written in exactly one place, the success path of `_pair_verify_two`; every failure path
+  (outer layer does not decrypt, no identifier, identifier not a UUID, controller not paired,
+  proof missing or not verifying) answers an error and leaves them as they were — also on a
+  connection that is already verified.  One pair-verify exchange (M1 + M3) is one operation.
+  Cryptography is ideal and enters as data of the attempt (the C02 fact restated): the outer AEAD
+  layer opens iff it was sealed with this exchange's key (`outerOk`), and an Ed25519 proof verifies
+  under a registered key `K` iff it was made over this exchange's material with the private key
+  belonging to `K` (`signer = some K`; `none` = no proof item / garbage / other material). -/
+
+/-- what the controller sent in M3, as far as the accessory can tell -/
+structure VerifyAttempt where
+  /-- the encrypted sub-TLV opens under the exchange key -/
+  outerOk : Bool
+  /-- the identifier item of the sub-TLV, if any -/
+  idb : Option Bytes
+  /-- public key matching the private key the proof was really made with (over the right material) -/
+  signer : Option Bytes
+deriving DecidableEq, Repr
+
+/-- `_pair_verify_two`: the controller the attempt proves, if any. Reads the state, changes none. -/
+def verifies (parse : Bytes → Option Uuid) (s : PState) (v : VerifyAttempt) : Option Uuid :=
+  if !v.outerOk then none                        -- InvalidTag → M4 authentication error
+  else match v.idb with
+    | none => none                               -- KeyError → 500
+    | some idb =>
+      match parse idb with
+      | none => none                             -- ValueError → 500
+      | some u =>
+        match aget s.paired u with
+        | none => none                           -- not paired → M4 authentication error
+        | some k => if v.signer = some k then some u else none   -- InvalidSignature / KeyError
+
+/-- session facts of every connection (connections are numbered) -/
+abbrev Sessions := Nat → Conn
+
+def Sessions.fresh : Sessions := fun _ => ⟨false, none⟩
+
+/-- operations of a history with real sessions -/
+inductive SOp
+  | setup (idb key : Bytes)
+  /-- a pair-verify exchange on connection `c` -/
+  | verify (c : Nat) (v : VerifyAttempt)
+  /-- `POST /pairings` on connection `c` -/
+  | req (c : Nat) (body : Bytes)
+
+/-- one step: pairing state, session facts, and (for setup / req) the answer -/
+def sstep (parse : Bytes → Option Uuid) (s : PState) (ss : Sessions) : SOp → PState × Sessions × Option (Resp × Bool)
+  | .setup idb key =>
+    let o := step parse s (.setup idb key)
+    (o.1, ss, some o.2)
+  | .verify c v =>
+    match verifies parse s v with
+    | some u => (s, fun c' => if c' = c then ⟨true, some u⟩ else ss c', none)
+    | none => (s, ss, none)
+  | .req c body =>
+    let o := handlePairings parse s ⟨ss c, body⟩
+    (o.1, ss, some o.2)
+
 end Hap.PairState
